@@ -31,12 +31,16 @@ def run(ck):
         e = json.loads(l)
         if e["e"] == "begin":
             begins[e["t"]] = e
+    vacuous = []
     for b in rt.printed("@BAD"):
         tp = begins.get(b["t"], {}).get("transport")
         if b["why"] == "C13:vacuous-no-media-frames":
-            raise Infra("vacuous: execution %s (%s) received no media frame" % (b["t"], tp))
+            vacuous.append((b["t"], tp))
+            continue
         key = "%s:%s" % (b["why"], tp)
         ck.violation(key, "transport %s: %s: %s" % (tp, b["why"], json.dumps(b["ev"])[:300]), b)
+    if vacuous and not ck.violations:
+        raise Infra("vacuous: executions %s received no media frame" % vacuous)
     ck.sample({"execution": begins.get(1), "first_items": [json.loads(l) for l in lines[1:12]]})
     ck.assumptions += ["the media writer is parked by the verif hook frame.prefix between prefix and payload; the request is sent in that window; the gate opens when the request handler is seen parked on the write lock (goroutine dump) or after 40 ms",
                        "WSP data channel uses the same tcpConsumer code path as ws-rtsp (wsconn != nil); it is exercised by the C11/C01 server drivers"]
